@@ -35,7 +35,7 @@ type c20Line struct {
 var c20Known = map[string]string{
 	"print-num": "1\n", "print-str": "hi\n", "print-arith": "7\n", "expr-num": "5\n", "expr-arith": "3\n", "expr-str": "abc\n",
 	"expr-true": "true\n", "expr-nil": "nil\n", "rt-mid-line": "1\n", "rt-in-for": "0\n", "multi-var-print": "4\n", "multi-func": "16\n",
-	"multi-for": "0\n1\n", "rt-print-then-fail-in-func": "8\n", "long-print-ascii": c20Long(5000, "x") + "\n", "long-print-bangla": c20Long(1500, "\u0995") + "\n", "long-expr": "1401\n", "input-one": "p[hello]\n", "input-two": "abcd\n", "input-echo": "spaced out\n", "huge-print": c20Long(70000, "z") + "\n", "long-rt": c20Long(4090, "y") + "\n", "str-backslash": "a\\b\n",
+	"multi-for": "0\n1\n", "rt-print-then-fail-in-func": "8\n", "long-print-ascii": c20Long(5000, "x") + "\n", "long-print-bangla": c20Long(1500, "\u0995") + "\n", "long-expr": "1401\n", "crlf-print": "42\n", "input-one": "p[hello]\n", "input-two": "abcd\n", "input-echo": "spaced out\n", "huge-print": c20Long(70000, "z") + "\n", "long-rt": c20Long(4090, "y") + "\n", "str-backslash": "a\\b\n",
 }
 
 func c20Long(n int, unit string) string { return strings.Repeat(unit, n) }
@@ -106,6 +106,18 @@ var c20Pool = []c20Line{
 	{"input-two", "input", KwPrint + " " + FnInput + "() + " + FnInput + "();\nab\ncd"},
 	{"input-then-fail", "input-rt", KwPrint + " " + FnInput + "(\"q\") + nx;\nzz"},
 	{"input-echo", "input", FnInput + "();\n  spaced out  "},
+	// a call that fails before its arguments are looked at: the arguments (which would
+	// read input) are never evaluated, so the next line is still a program line
+	{"rt-not-callable-input-arg", "rt", "5(" + FnInput + "());"},
+	{"rt-arity-input-args", "rt", FnLen + "(" + FnInput + "(), " + FnInput + "());"},
+	{"rt-arity-user-input-args", "rt", KwFun + " one(a) { " + KwReturn + " a; } one(" + FnInput + "(), " + FnInput + "());"},
+	// bytes that are not valid UTF-8
+	{"lex-invalid-utf8-ident", "lex", KwVar + " \xe0\xa6 = 1;"},
+	{"invalid-utf8-in-string", "print-bytes", KwPrint + " \"x\xffy\" + 1;"},
+	{"lex-lone-continuation", "lex", "\x80\x80;"},
+	// a line ending in CR LF
+	{"crlf-print", "print", KwPrint + " 41 + 1;\r"},
+	{"crlf-error", "rt", "nx;\r"},
 	// silent statements
 	{"silent-var", "silent", KwVar + " y = 5;"},
 	{"silent-block", "silent", "{ }"},
